@@ -26,6 +26,11 @@ func valueFieldByName(v reflect.Value, fields []string) (out reflect.Value, ok b
 		v = v.Elem()
 	}
 
+	// path goes through something which is not a structure
+	if v.Kind() != reflect.Struct || len(fields) == 0 {
+		return
+	}
+
 	out = v.FieldByName(fields[0])
 
 	// if pointer we dereference
@@ -34,6 +39,10 @@ func valueFieldByName(v reflect.Value, fields []string) (out reflect.Value, ok b
 			out = reflect.New(out.Type().Elem())
 		} else {
 			out = out.Elem()
+		}
+		// pointer is the last element of the path
+		if len(fields) == 1 {
+			return out, out.IsValid()
 		}
 		return valueFieldByName(out, fields[1:])
 	}
